@@ -80,5 +80,10 @@ void QXmpp::Private::TaskPrivate::setContinuation(std::function<void(TaskPrivate
 
 void QXmpp::Private::TaskPrivate::invokeContinuation(void *result)
 {
-    d->continuation(*this, result);
+    // The continuation may drop the promise or task owning this object (or the last reference to
+    // the shared data), so run it on a local handle and keep the function object alive meanwhile.
+    TaskPrivate self(*this);
+    auto continuation = std::move(self.d->continuation);
+    self.d->continuation = nullptr;
+    continuation(self, result);
 }
